@@ -82,4 +82,100 @@ theorem huffStep_total (c : Cutter) (hc : c.OK) (ll dl : Array Nat) (hgd : c.dHu
       · exact ⟨by t1, by t2, by t2, by t4⟩
       · exact ⟨by t1, by t2, by t2, fun _ => ⟨hc.inv, Nat.le_refl _⟩⟩
 
+/-- A recorded checkpoint is a cursor position inside the buffer that leaves room for the end code. -/
+def CPwf (c : Cutter) (cp : Option (Nat × Nat)) : Prop :=
+  ∀ i n, cp = some (i, n) →
+    n ≤ 8 * i ∧ i ≤ c.bits.bytes.size ∧ 8 * i - n + c.endCodeNBits ≤ 8 * c.maxEncodedLen
+
+structure HuffLoopPost (c : Cutter) (r : Cutter × Option (Nat × Nat) × Option (Option Err)) : Prop where
+  max : r.1.maxEncodedLen = c.maxEncodedLen
+  ecn : r.1.endCodeNBits = c.endCodeNBits
+  ecb : r.1.endCodeBits = c.endCodeBits
+  lh : r.1.lHuff = c.lHuff
+  dh : r.1.dHuff = c.dHuff
+  bytes : r.1.bits.bytes = c.bits.bytes
+  noPanic : r.2.2 ≠ some (some .panic)
+  noFuel : r.2.2 ≠ some (some .fuel)
+  cp : CPwf c r.2.1
+  ret : r.2.2 = some none → r.1.bits.Inv ∧ c.bits.pos ≤ r.1.bits.pos
+
+theorem HuffLoopPost.transport {c c' : Cutter} {r : Cutter × Option (Nat × Nat) × Option (Option Err)}
+    (h : HuffLoopPost c' r) (h1 : c'.maxEncodedLen = c.maxEncodedLen) (h2 : c'.endCodeNBits = c.endCodeNBits)
+    (h3 : c'.endCodeBits = c.endCodeBits) (h4 : c'.lHuff = c.lHuff) (h5 : c'.dHuff = c.dHuff)
+    (h6 : c'.bits.bytes = c.bits.bytes) (h7 : c.bits.pos ≤ c'.bits.pos) : HuffLoopPost c r :=
+  ⟨h.max.trans h1, h.ecn.trans h2, h.ecb.trans h3, h.lh.trans h4, h.dh.trans h5, h.bytes.trans h6,
+    h.noPanic, h.noFuel,
+    (by intro i n hin; have := h.cp i n hin; rw [h1, h2, h6] at this; exact this),
+    (by intro hr; obtain ⟨a, b⟩ := h.ret hr; exact ⟨a, by omega⟩)⟩
+
+/-- **The symbol loop of `doHuffman` never panics and never runs out of fuel.** -/
+theorem huffLoop_total (ll dl : Array Nat) (hll : ll.size ≤ 288) (hdl : dl.size ≤ 32) :
+    ∀ (fuel : Nat) (c : Cutter) (cp : Option (Nat × Nat)) (d0 : Int),
+    c.OK → c.lHuff.Good ll → c.dHuff.Good dl → 8 * c.bits.bytes.size + 1 ≤ fuel + c.bits.pos → CPwf c cp →
+    HuffLoopPost c (Cutter.huffLoop fuel c cp d0) := by
+  intro fuel
+  induction fuel with
+  | zero =>
+    intro c cp d0 hc _ _ hf _
+    have := Inv.pos_le hc.inv
+    omega
+  | succ fuel ih =>
+    intro c cp d0 hc hgl hgd hf hcp
+    rw [Cutter.huffLoop]
+    obtain ⟨s, b', e, y, p⟩ := hgl.decode (offAt16_le ll 288 hll) c.bits hc.inv
+    simp only [e]
+    by_cases hs : s < 0
+    · simp only [hs, if_true]
+      exact ⟨rfl, rfl, rfl, rfl, rfl, y, by simp, by simp, hcp, by intro h; simp at h⟩
+    · simp only [hs, if_false]
+      obtain ⟨hcoded, i1, p1⟩ := p (by omega)
+      have hc1 : ({ c with bits := b' } : Cutter).OK := ⟨i1, by simp only [y]; exact hc.max, hc.l, hc.d⟩
+      have hst := huffStep_total { c with bits := b' } hc1 ll dl hgd hdl s hcoded hll d0
+      generalize hr : ({ c with bits := b' } : Cutter).huffStep s d0 = r at hst
+      obtain ⟨c2, d2, o⟩ := r
+      simp only [] at hst
+      obtain ⟨q1, q2, q3, q4⟩ := hst
+      have m1 : c2.maxEncodedLen = c.maxEncodedLen := by rw [q1]
+      have m2 : c2.endCodeNBits = c.endCodeNBits := by rw [q1]
+      have m3 : c2.endCodeBits = c.endCodeBits := by rw [q1]
+      have m4 : c2.lHuff = c.lHuff := by rw [q1]
+      have m5 : c2.dHuff = c.dHuff := by rw [q1]
+      have m6 : c2.bits.bytes = c.bits.bytes := by
+        have := (huffStep_spec { c with bits := b' } s d0).2.2.2.1
+        rw [hr] at this
+        exact this.trans y
+      cases o with
+      | some r =>
+        simp only []
+        refine ⟨m1, m2, m3, m4, m5, m6, q2, q3, hcp, ?_⟩
+        intro h
+        obtain ⟨a, b⟩ := q4 (Or.inr h)
+        exact ⟨a, by show c.bits.pos ≤ c2.bits.pos; have hb2 : b'.pos ≤ c2.bits.pos := b; omega⟩
+      | none =>
+        simp only []
+        obtain ⟨i2, p2⟩ := q4 (Or.inl rfl)
+        have p2 : b'.pos ≤ c2.bits.pos := p2
+        by_cases hd2 : d2 < 0
+        · simp only [hd2, if_true]
+          exact ⟨m1, m2, m3, m4, m5, m6, by simp, by simp, hcp, by intro h; simp at h⟩
+        · simp only [hd2, if_false]
+          by_cases hbud : 8 * c2.bits.index - c2.bits.nBits + c2.endCodeNBits > 8 * c2.maxEncodedLen
+          · simp only [hbud, if_true]
+            exact ⟨m1, m2, m3, m4, m5, m6, by simp, by simp, hcp, by intro h; simp at h⟩
+          · simp only [hbud, if_false]
+            have hc2 : ({ c2 with decodedLen := d2 } : Cutter).OK :=
+              ⟨i2, by simp only [m1, m6]; exact hc.max, by simp only [m4]; exact hc.l, by simp only [m5]; exact hc.d⟩
+            have hpost := ih { c2 with decodedLen := d2 } (some (c2.bits.index, c2.bits.nBits)) d2 hc2
+              (by simp only [m4]; exact hgl) (by simp only [m5]; exact hgd)
+              (by simp only [m6]; omega)
+              (by
+                intro i n hin
+                simp only [Option.some.injEq, Prod.mk.injEq] at hin
+                obtain ⟨rfl, rfl⟩ := hin
+                have := i2.nBits_le; have := i2.index_le
+                refine ⟨by omega, by omega, ?_⟩
+                simp only [Bitstream.pos] at *
+                omega)
+            exact hpost.transport m1 m2 m3 m4 m5 m6 (by show c.bits.pos ≤ c2.bits.pos; omega)
+
 end WuffsVerif.Flate.Cut
